@@ -177,8 +177,8 @@ func TestErrorPathStopsBackgroundWork(t *testing.T) {
 		"numbers(4000000).map(e -> if e = 2 then throw(\"x\") else cnt(e)).merge(numbers(6).map(e -> e * 2), (a, b) -> a < b).reduce((a, b) -> b)",
 		"numbers(4000000).number((i, e) -> if e = 3 then throw(\"x\") else cnt(e)).merge(numbers(7), (a, b) -> a < b).sum()",
 		// a consumer uses its list twice (an error); the other consumer still has work to do behind the end of the list
-		"numbers(20).multiUse({a: l -> l.first() + l.first(), b: l -> l.size() + numbers(1500000).map(e -> cnt(e)).reduce((a, b) -> b)})",
-		"numbers(20).multiUse({a: l -> l.map(e -> e).size() + l.map(e -> e).size(), b: l -> l.size() + numbers(1500000).map(e -> cnt(e)).reduce((a, b) -> b)})",
+		"numbers(20).multiUse({a: l -> l.first() + l.first(), b: l -> l.size() + numbers(200000).map(e -> cnt(e)).reduce((a, b) -> b)})",
+		"numbers(20).multiUse({a: l -> l.map(e -> e).size() + l.map(e -> e).size(), b: l -> l.size() + numbers(200000).map(e -> cnt(e)).reduce((a, b) -> b)})",
 		"numbers(9).multiUse({a: l -> l.merge(numbers(4000000).map(e -> if e = 3 then throw(\"x\") else cnt(e)), (a, b) -> a < b).size(), b: l -> l.size()})",
 	}
 	for _, text := range shapes {
